@@ -74,6 +74,11 @@ type Agent struct {
 	cond    *sync.Cond
 	states  []StateEv
 	handled []Handled
+	// continued: action events of a thread the harness has continued (handed back to the service's listener);
+	// lcEvents: the channel the legacy service posts its state events to; sentinels: markers seen on it
+	continued map[string]int
+	lcEvents  chan service.StateMsg
+	sentinels int
 	inLog   []*Packet
 	putDIDs map[string]bool // keys put into the peer DID store
 	putKeys map[string]bool // keys put into the DID connection store
@@ -355,12 +360,32 @@ func (a *Agent) build() error {
 		go func() {
 			for e := range act {
 				e.Continue(&contOpts{a})
+
+				thid := ""
+				if e.Message != nil {
+					thid, _ = e.Message.ThreadID()
+				}
+
+				a.mu.Lock()
+				if a.continued == nil {
+					a.continued = map[string]int{}
+				}
+
+				a.continued[thid]++
+				a.cond.Broadcast()
+				a.mu.Unlock()
 			}
 		}()
 
 		st := make(chan service.StateMsg, 256)
 		if err = c.RegisterMsgEvent(st); err != nil {
 			return err
+		}
+
+		if _, isLC := c.(*lcclient.Client); isLC {
+			a.mu.Lock()
+			a.lcEvents = st
+			a.mu.Unlock()
 		}
 
 		go a.listen(st)
@@ -379,6 +404,15 @@ type connEvent interface {
 
 func (a *Agent) listen(ch chan service.StateMsg) {
 	for e := range ch {
+		if e.ProtocolName == sentinelProto {
+			a.mu.Lock()
+			a.sentinels++
+			a.cond.Broadcast()
+			a.mu.Unlock()
+
+			continue
+		}
+
 		ev := StateEv{Proto: e.ProtocolName, State: e.StateID, Post: e.Type == service.PostState}
 		if p, ok := e.Properties.(connEvent); ok {
 			ev.ConnID = p.ConnectionID()
@@ -401,6 +435,41 @@ func (a *Agent) listen(ch chan service.StateMsg) {
 		a.cond.Broadcast()
 		a.mu.Unlock()
 	}
+}
+
+const sentinelProto = "c10-sentinel"
+
+// lcSettled returns once the legacy service has finished the callback of a request the harness continued and every
+// state event it posted on the way has reached the agent's event log.  The legacy service has no abandoned state: an
+// error while answering a request is dropped by its listener without any event, so the events alone cannot tell.
+// (VerifBarrier: the add-only hook of the state machine check, pushes no-op messages through the listener's channel.)
+func (a *Agent) lcSettled() {
+	for _, s := range a.ctx.AllServices() {
+		if s.Name() == "legacyconnection" {
+			if b, ok := s.(interface{ VerifBarrier() }); ok {
+				b.VerifBarrier()
+			}
+		}
+	}
+
+	a.mu.Lock()
+	ch, n0 := a.lcEvents, a.sentinels
+	a.mu.Unlock()
+
+	if ch == nil {
+		return
+	}
+
+	ch <- service.StateMsg{ProtocolName: sentinelProto}
+
+	a.waitFor(settle, func() bool { return a.sentinels > n0 })
+}
+
+func (a *Agent) contCount(thid string) int {
+	a.mu.Lock()
+	defer a.mu.Unlock()
+
+	return a.continued[thid]
 }
 
 func (a *Agent) noteInbound(p *Packet) {
